@@ -433,6 +433,67 @@ def t_detection_call(ctx):
                if isinstance(bk, SArr) and len(bk.shape_) == 2 else (bk == 0 if isinstance(bk, (int, float)) else False))
     ctx.oblige("post", "detection.clips_are_the_callers_with_flood_not_above_seed",
                And(got.get('seed_clip') == ic, got.get('flood_clip') == ite(oc > ic, ic, oc)))
+    if out.env.has('scalars'):
+        sc = out.env.lookup('scalars')
+        ctx.oblige("post", "detection.per_island_scalars_hold_the_clips_used_for_detection",
+                   And(sc[0] == got.get('seed_clip'), sc[1] == got.get('flood_clip')) if isinstance(sc, tuple) and len(sc) == 3 else False)
+
+
+def t_make_bkg_rms(ctx):
+    """noise / background are each either the forced value or the internal (BANE) estimate, independently of each other"""
+    qn = 'SourceFinder._make_bkg_rms'
+    shape = (Sym(z3.Int('R')), Sym(z3.Int('C')))
+    ctx.assume(And(shape[0] >= 1, shape[1] >= 1))
+    rms0, bkg0 = SArr.fresh('rms_zeros', shape), SArr.fresh('bkg_zeros', shape)
+    est_b, est_r = SArr.fresh('bane_bkg', shape, with_nan=True), SArr.fresh('bane_rms', shape, with_nan=True)
+    f_rms = sym('forced_rms') if ctx.free_branch() else None
+    f_bkg = sym('forced_bkg') if ctx.free_branch() else None
+    gd = Obj('GlobalFittingData', rmsimg=rms0, bkgimg=bkg0, header=Opaque('header'), cube_index=None)
+    me = Obj('self', global_data=gd, log=Namespace('log'))
+    calls = []
+
+    def m_filter(c, **kw):
+        calls.append(kw)
+        return (est_b, est_r)
+    g = {'get_step_size': Model(lambda c, h: (Sym(z3.Int('step0')), Sym(z3.Int('step1'))), 'get_step_size'),
+         'filter_image': Model(m_filter, 'BANE.filter_image'), 'np': lib.std_np()}
+    out = run_function(ctx, FILE, qn, [me, 'image.fits'], kwargs={'forced_rms': f_rms, 'forced_bkg': f_bkg, 'cores': 1}, globals_=g)
+    if out.kind != 'return':
+        ctx.oblige("safe", "bkg_rms.no_exception", False)
+        return
+    r_, c_ = Sym(z3.Int('r')), Sym(z3.Int('c'))
+    ctx.assume(And(r_ >= 0, r_ < shape[0], c_ >= 0, c_ < shape[1]))
+    p = (r_, c_)
+    rm, bk = gd.fields['rmsimg'], gd.fields['bkgimg']
+    ok = isinstance(rm, SArr) and isinstance(bk, SArr)
+    ctx.oblige("post", "bkg_rms.maps_are_images", ok)
+    if not ok:
+        return
+    lab = "bkg_rms.%s_%s" % ("rms_forced" if f_rms is not None else "rms_estimated", "bkg_forced" if f_bkg is not None else "bkg_estimated")
+    ctx.oblige("post", lab + ".noise_map_is_the_forced_value_or_the_estimate",
+               And(rm.at(p) == f_rms, Not(rm.isnan(p))) if f_rms is not None else
+               And(rm.at(p) == est_r.at(p), Sym(Sym.lift(rm.isnan(p)) == Sym.lift(est_r.isnan(p)))))
+    ctx.oblige("post", lab + ".background_map_is_the_forced_value_or_the_estimate",
+               And(bk.at(p) == f_bkg, Not(bk.isnan(p))) if f_bkg is not None else
+               And(bk.at(p) == est_b.at(p), Sym(Sym.lift(bk.isnan(p)) == Sym.lift(est_b.isnan(p)))))
+    ctx.oblige("post", lab + ".estimator_runs_iff_something_is_not_forced",
+               (len(calls) == 0) == (f_rms is not None and f_bkg is not None) and len(calls) <= 1 and
+               all(kw.get('im_name') == 'image.fits' for kw in calls))
+
+
+def t_api_defaults(ctx):
+    """a caller who passes no polarity options gets both polarities (the recovery claim covers negative amplitudes too)"""
+    fn = find_function(FILE, 'SourceFinder.find_sources_in_image')
+    ctx.info = ctx.session.register_function(FILE, 'SourceFinder.find_sources_in_image', fn, mode="region")
+    names = [a.arg for a in fn.args.args]
+    defs = dict(zip(names[len(names) - len(fn.args.defaults):], fn.args.defaults))
+    val = lambda k: ast.literal_eval(defs[k]) if k in defs else 'missing'
+    ctx.oblige("post", "api.default_options_keep_both_polarities", val('nopositive') is False and val('nonegative') is False)
+    ctx.oblige("post", "api.default_clips_are_seed_5_flood_4", val('innerclip') == 5 and val('outerclip') == 4)
+
+
+def _curvature(ctx):
+    return c13.t_curvature(ctx)
 
 
 def _chain(ctx):
@@ -460,7 +521,9 @@ def verify(S):
     targets = [("source_finder.SourceFinder.find_sources_in_image[detection]", t_detection_call),
                ("fitting.ntwodgaussian_lmfit", t_model), ("fitting.do_lmfit", t_residual),
                ("source_finder.SourceFinder.estimate_lmfit_parinfo[start]", t_start_bounds),
-               ("source_finder.SourceFinder.result_to_components", _chain), ("fitting.errors[geometry]", t_errors_geometry)]
+               ("source_finder.SourceFinder.result_to_components", _chain), ("fitting.errors[geometry]", t_errors_geometry),
+               ("source_finder.SourceFinder._make_bkg_rms", t_make_bkg_rms), ("source_finder.SourceFinder._fit_island[curvature]", _curvature),
+               ("source_finder.SourceFinder.find_sources_in_image[defaults]", t_api_defaults)]
     for name, fn in targets:
         if S.only and S.only not in name:
             continue
